@@ -143,7 +143,7 @@ def gen(tier, seed):
         copy_m = [('enum', [('tuple', ['l', 'k']), ('named', ['u', 'l']), ('unit', [])]), ('enum', [('named', ['k']), ('tuple', ['l', 'l', 'u'])]),
                   ('enum', [('unit', []), ('tuple', ['u', 'l', 'k'])]), ('enum', [('tuple', ['v', 'l'])])]
     else:
-        shapes = S.struct_shapes(plain) + S.enum_shapes_thorough(plain) + S.seeded_extra(plain, seed, 40)
+        shapes = S.struct_shapes(plain, 4) + S.enum_shapes_thorough(plain) + S.four_variant_enums(plain) + S.seeded_extra(plain, seed, 40)
         copy_shapes = S.struct_shapes(['l', 'u']) + S.enum_shapes_thorough(['l', 'u'])
         copy_m = [sh for sh in S.enum_shapes_thorough(['l', 'k', 'u']) if any('k' in fl for _, fl in sh[1])]
     mods = []
@@ -161,7 +161,7 @@ def gen(tier, seed):
 
 RULE = ('one config = shape x per-field {Bump (clone adds 1), Bump with method (xor 0x80), plain u8; with Copy: Unlawful (Copy but clone adds 1), Unlawful with method (enums)} x Copy on/off; '
         'clone: arbitrary x; clone_from: arbitrary ordered pair (a, b) incl. different variants. Non-trivial = both harnesses passed and their witnesses (reached, same/different variant) SATISFIED.')
-BOUNDS = dict(max_fields=3, max_variants=3, outside=['>3 fields/variants', 'field types other than Bump/Unlawful/u8', 'Drop side effects of the overwritten value'])
+BOUNDS = dict(max_fields='3 (quick), 4 (thorough)', max_variants='3 (quick), 4 (thorough)', outside=['>3 fields/variants', 'field types other than Bump/Unlawful/u8', 'Drop side effects of the overwritten value'])
 ASSUME = ['Kani 0.68 / CBMC 6.11 / CaDiCaL; rustc nightly-2026-08-21 x86_64 dev profile',
           'expected clone written from the config (each field transformed exactly once by its own Clone or the method); with Copy and no method: bitwise',
           '"indistinguishable" is checked as structural equality with the expected value of b.clone()']
